@@ -176,6 +176,7 @@ def r_separation(P, rep):
     A = Agg(rep)
     show_ = lambda b: b.decode('utf-8', 'replace')
     und = set()
+    depends = {}
     for a, b, verdict, detail, ka in res:
         if verdict == 'undecided':
             key = '%s:%s:separation-not-followed' % (MU, fn)
@@ -187,15 +188,29 @@ def r_separation(P, rep):
         key = '%s:%s:glue:%s' % (MU, fn, cls)
         if verdict == 'separated':
             A.ob('R19.4', key, True, '', where, {'example': '%s|%s' % (show_(a), show_(b)), 'glued text reads back as': detail[0]})
+        elif verdict == 'depends':
+            # the spellings alone make the printer separate the pair; whether it does also hangs on other fields: one obligation per set of fields
+            how, trail, consulted, nmiss, npaths = detail
+            A.ob('R19.4', key, True, '', where, {'example': '%s|%s' % (show_(a), show_(b)), 'glued text reads back as': how})
+            fields = sorted(set(c.split('->')[-1] for c in consulted))
+            depends.setdefault(tuple(fields), []).append((a, b, how, trail, consulted, nmiss, npaths))
         else:
             how, trail, consulted, nmiss, npaths = detail
             A.ob('R19.4', key, False,
                  'print_tokens writes `%s` directly after `%s` (%s, no white space between them in the source, e.g. at the seam of a macro expansion) on %d of %d paths%s, but tokenize() reads `%s%s` back as: %s - the -E output denotes other tokens than the ones the compiler proper consumed' % (
                      show_(b), show_(a), names.get(ka, ka), nmiss, npaths,
-                     (' (the path depends on %s, which says nothing about the spellings)' % ', '.join(consulted)) if consulted else '',
+                     (' (the path depends on %s, which says nothing about the spellings)' % ', '.join(consulted)) if consulted and nmiss < npaths else '',
                      show_(a), show_(b), how),
                  where, {'example': '%s|%s' % (show_(a), show_(b)), 'path': trail, 'fields consulted': consulted})
     A.flush()
+    if not depends:
+        rep.ob('R19.4', '%s:%s:separation-depends-on:kind-and-spelling-only' % (MU, fn), True, '', where=where)
+    for fields, lst in sorted(depends.items()):
+        a, b, how, trail, consulted, nmiss, npaths = lst[0]
+        rep.ob('R19.4', '%s:%s:separation-depends-on:%s' % (MU, fn, '-'.join(fields)), False,
+               'whether print_tokens keeps apart two tokens whose spellings read back differently when glued depends on %s: for %d pair(s) of the table, e.g. `%s` `%s` (glued: %s), white space is written on some paths and omitted on %d of %d - but no field other than kind and spelling tells how the text will be read back, and tokens that agree in those fields do meet without white space (a replacement-list token and the first token of a substituted argument, two arguments)' % (
+                   ', '.join(consulted), len(lst), show_(a), show_(b), how, nmiss, npaths),
+               where=where, facts={'path': trail, 'pairs': ['%s|%s' % (show_(x[0]), show_(x[1])) for x in lst[:12]]})
     rep.extra['R19.4 table'] = {'one-token spellings': info['spellings'], 'pairs': info['pairs'], 'pairs not read back': len(set((r[0], r[1]) for r in res)),
                                 'kinds converted before printing': info['converted'], 'candidates that are not one token': info['dropped']}
 
